@@ -390,4 +390,123 @@ Proof.
   rewrite H in HP. exact HP.
 Qed.
 
+(* ---------- the two triangular solves of one column ---------- *)
+Section Solve.
+Variable A : vec.
+Variable p : list nat.
+Hypothesis HPp : PermOK p.
+Hypothesis HLA : length A = n * n.
+Local Notation W := (view A p).
+
+Lemma low_phase k (t : vec) : k < n -> length t = n * n ->
+  length (for_loop 0 n (low_body n A p k) t) = n * n /\
+  (forall i j, j < n -> j <> k -> mg (for_loop 0 n (low_body n A p k) t) i j = mg t i j) /\
+  forall i, i < n ->
+    mg (for_loop 0 n (low_body n A p k) t) i k =
+    ((if Nat.eqb (nth i p 0) k then s1 else s0)
+     - sumn (fun j => W i j * mg (for_loop 0 n (low_body n A p k) t) j k) i)%S.
+Proof.
+  intros Hk HL.
+  pose (P := fun i (t' : vec) => length t' = n * n /\
+     (forall i' j, j < n -> j <> k -> mg t' i' j = mg t i' j) /\
+     forall i', i' < i -> mg t' i' k =
+       ((if Nat.eqb (nth i' p 0) k then s1 else s0) - sumn (fun j => W i' j * mg t' j k) i')%S).
+  assert (H : P (0 + n) (for_loop 0 n (low_body n A p k) t)).
+  { apply (for_loop_inv P).
+    - split; [assumption|]. split; [reflexivity|]. intros; lia.
+    - intros i t' Hi (HL' & Hfr & Hrow). unfold low_body. cbv zeta.
+      rewrite (sub_loop Sft (fun j => (vget A (nth i p 0 * n + j) * vget t' (j * n + k))%S)).
+      split; [rewrite lset_length; assumption|]. split.
+      + intros i' j Hj Hne. rewrite mg_lset by (try assumption; lia).
+        destruct (Nat.eqb_spec k j); [lia|]. rewrite Bool.andb_false_r. apply Hfr; assumption.
+      + assert (Hsame : forall i', i' <= i -> sumn (fun j => (W i' j * mg (lset t' (i * n + k)
+              ((if Nat.eqb (nth i p 0) k then s1 else s0)
+               - sumn (fun u => (vget A (nth i p 0 * n + (0 + u)) * vget t' ((0 + u) * n + k))%S) i)%S) j k)%S) i'
+            = sumn (fun j => (W i' j * mg t' j k)%S) i').
+        { intros i' Hi'. apply sumn_ext. intros j Hj. rewrite mg_lset by (try assumption; lia).
+          destruct (Nat.eqb_spec i j); [lia|]. reflexivity. }
+        intros i' Hi'. rewrite Hsame by lia. rewrite mg_lset by (try assumption; lia). rewrite Nat.eqb_refl.
+        destruct (Nat.eqb_spec i i') as [<-|Hne]; cbn [andb].
+        * reflexivity.
+        * apply Hrow. lia. }
+  destruct H as (H1 & H2 & H3). split; [assumption|]. split; assumption.
+Qed.
+
+Lemma up_inner k i (s : list S) : k < n -> i < n -> length s = n * n ->
+  let body := fun j (t : list S) => lset t (i * n + k)
+                 (vget t (i * n + k) - vget A (nth i p 0 * n + j) * vget t (j * n + k))%S in
+  length (for_loop (i + 1) (n - (i + 1)) body s) = n * n /\
+  (forall r' j', j' < n -> (r' <> i \/ j' <> k) -> mg (for_loop (i + 1) (n - (i + 1)) body s) r' j' = mg s r' j') /\
+  mg (for_loop (i + 1) (n - (i + 1)) body s) i k =
+    (mg s i k - sumn (fun u => W i (i + 1 + u) * mg s (i + 1 + u) k) (n - (i + 1)))%S.
+Proof.
+  intros Hk Hi HL body.
+  pose (R := fun j (s' : list S) => length s' = n * n /\
+     (forall r' j', j' < n -> (r' <> i \/ j' <> k) -> mg s' r' j' = mg s r' j') /\
+     mg s' i k = (mg s i k - sumn (fun u => W i (i + 1 + u) * mg s (i + 1 + u) k) (j - (i + 1)))%S).
+  assert (H : R (i + 1 + (n - (i + 1))) (for_loop (i + 1) (n - (i + 1)) body s)).
+  { apply (for_loop_inv R).
+    - split; [assumption|]. split; [reflexivity|]. rewrite Nat.sub_diag. simpl. ring.
+    - intros j s' Hj (HL' & Hfr & Hcell). unfold body.
+      split; [rewrite lset_length; assumption|]. split.
+      + intros r' j' Hj' Hne. rewrite mg_lset by (try assumption; lia).
+        destruct (Nat.eqb_spec i r'), (Nat.eqb_spec k j'); cbn [andb]; try (apply Hfr; assumption). lia.
+      + rewrite mg_lset by (try assumption; lia). rewrite !Nat.eqb_refl. cbn [andb].
+        change (vget s' (i * n + k)) with (mg s' i k). change (vget s' (j * n + k)) with (mg s' j k).
+        rewrite Hcell. rewrite (Hfr j k Hk) by lia.
+        replace (Datatypes.S j - (i + 1)) with (Datatypes.S (j - (i + 1))) by lia. simpl sumn.
+        replace (i + 1 + (j - (i + 1))) with j by lia. unfold view, mg. ring. }
+  replace (i + 1 + (n - (i + 1))) with n in H by lia. exact H.
+Qed.
+
+Lemma up_phase k (t1 : vec) : k < n -> length t1 = n * n ->
+  length (for_down 0 n (up_body n A p k) t1) = n * n /\
+  (forall i j, j < n -> j <> k -> mg (for_down 0 n (up_body n A p k) t1) i j = mg t1 i j) /\
+  forall i, i < n ->
+    mg (for_down 0 n (up_body n A p k) t1) i k =
+    ((mg t1 i k - sumn (fun j => if Nat.leb (Datatypes.S i) j
+                                 then W i j * mg (for_down 0 n (up_body n A p k) t1) j k else s0) n)
+     * W i i)%S.
+Proof.
+  intros Hk HL.
+  pose (Q := fun i (t' : vec) => length t' = n * n /\
+     (forall i' j, j < n -> j <> k -> mg t' i' j = mg t1 i' j) /\
+     (forall i', i' < i -> mg t' i' k = mg t1 i' k) /\
+     forall i', i <= i' -> i' < n -> mg t' i' k =
+       ((mg t1 i' k - sumn (fun j => if Nat.leb (Datatypes.S i') j then W i' j * mg t' j k else s0) n) * W i' i')%S).
+  assert (H : Q 0 (for_down 0 n (up_body n A p k) t1)).
+  { apply (for_down_inv Q).
+    - split; [assumption|]. split; [reflexivity|]. split; [reflexivity|]. intros; lia.
+    - intros i t' Hi (HL' & Hfr & Hlow & Hhigh). unfold up_body. cbv zeta.
+      pose proof (up_inner k i t' Hk ltac:(lia) HL') as Hin. cbv zeta in Hin.
+      set (s' := for_loop (i + 1) (n - (i + 1)) (fun j t => lset t (i * n + k)
+                   (vget t (i * n + k) - vget A (nth i p 0 * n + j) * vget t (j * n + k))%S) t') in *.
+      destruct Hin as (HLs & Hfrs & Hcell).
+      assert (Hcell' : mg s' i k = (mg t1 i k - sumn (fun j => if Nat.leb (Datatypes.S i) j then W i j * mg t' j k else s0) n)%S).
+      { rewrite Hcell. rewrite (Hlow i) by lia. f_equal.
+        replace n with ((i + 1) + (n - (i + 1))) at 2 by lia.
+        replace (Datatypes.S i) with (i + 1) by lia.
+        rewrite (sumn_shift Sft (fun j => (W i j * mg t' j k)%S)). reflexivity. }
+      split; [rewrite lset_length; assumption|]. split; [|split].
+      + intros i' j Hj Hne. rewrite mg_lset by (try assumption; lia).
+        destruct (Nat.eqb_spec k j); [lia|]. rewrite Bool.andb_false_r. rewrite Hfrs by (try assumption; lia).
+        apply Hfr; assumption.
+      + intros i' Hi'. rewrite mg_lset by (try assumption; lia).
+        destruct (Nat.eqb_spec i i'); [lia|]. cbn [andb]. rewrite Hfrs by (try assumption; lia). apply Hlow. lia.
+      + assert (Hsame : forall i', i <= i' -> sumn (fun j => if Nat.leb (Datatypes.S i') j
+                     then (W i' j * mg (lset s' (i * n + k) (vget s' (i * n + k) * vget A (nth i p 0 * n + i))%S) j k)%S else s0) n
+                   = sumn (fun j => if Nat.leb (Datatypes.S i') j then (W i' j * mg t' j k)%S else s0) n).
+        { intros i' Hi'. apply sumn_ext. intros j Hj. destruct (Nat.leb_spec (Datatypes.S i') j); [|reflexivity].
+          rewrite mg_lset by (try assumption; lia). destruct (Nat.eqb_spec i j); [lia|]. cbn [andb].
+          rewrite Hfrs by (try assumption; lia). reflexivity. }
+        intros i' H1 H2. rewrite Hsame by assumption. rewrite mg_lset by (try assumption; lia).
+        rewrite Nat.eqb_refl. destruct (Nat.eqb_spec i i') as [<-|Hne]; cbn [andb].
+        * change (vget s' (i * n + k)) with (mg s' i k). rewrite Hcell'. reflexivity.
+        * rewrite Hfrs by (try assumption; lia). apply Hhigh; lia. }
+  destruct H as (H1 & H2 & _ & H4). split; [assumption|]. split; [assumption|].
+  intros i Hi. apply H4; lia.
+Qed.
+
+End Solve.
+
 End InvExact.
